@@ -1386,6 +1386,70 @@ func closedPortCase(res *vkit.Result, c Case) {
 	res.Eval(vkit.JSON(c), true)
 }
 
+// lateNamedTargetCase: the target is given by name and refuses connections while the config is
+// decoded and for the first half second of the run; then it comes up and closes the connection
+// after every answer, so that all instances keep dialling at the same moments (first through the
+// name, then through whatever the dialers remember of it). The run must end by itself with one
+// sample per request.
+func lateNamedTargetCase(res *vkit.Result, c Case) {
+	port := vkit.FreePort()
+	path := vkit.WriteMem([]byte("/a t\n/b t\n/c t\n/d t\n"))
+	defer vkit.RemoveMem(path)
+	gun := map[string]any{"type": c.Gun, "target": fmt.Sprintf("localhost:%d", port), "dial": map[string]any{"timeout": "1s"}}
+	var tgt atomic.Pointer[vkit.HTTPTarget]
+	stop := make(chan struct{})
+	defer close(stop)
+	go func() {
+		select {
+		case <-time.After(500 * time.Millisecond):
+		case <-stop:
+			return
+		}
+		t, err := vkit.NewHTTPTargetAt(fmt.Sprintf("127.0.0.1:%d", port), false)
+		if err != nil {
+			return
+		}
+		t.Respond = func(rec *vkit.ReqRec, w http.ResponseWriter, r *http.Request) {
+			w.Header().Set("Connection", "close")
+			_, _ = w.Write([]byte("ok"))
+		}
+		tgt.Store(t)
+	}()
+	defer func() {
+		if t := tgt.Load(); t != nil {
+			t.Close()
+		}
+	}()
+	// as fast as the instances can go for 1.5 s: when the target comes up, many of them dial at once
+	pool := poolConf(map[string]any{"type": "uri", "file": path}, gun, c.Instances)
+	pool["rps"] = map[string]any{"type": "unlimited", "duration": "1500ms"}
+	samples, rr, err := runPool(pool, 60*time.Second)
+	if err != nil {
+		res.Inconclusive(true, "pool rejected: %v", err)
+		return
+	}
+	if rr.Hang || rr.WaitHang {
+		res.Violate(key(c, "hang"), "the run did not end within 60 s (an unlimited profile of 1.5 s against a target that comes up after half a second):\n"+rr.Stacks, c)
+		return
+	}
+	if rr.Err != nil {
+		res.Violate(key(c, "run-aborted"), fmt.Sprintf("Engine.Run returned %v", rr.Err), c)
+		return
+	}
+	if len(samples) == 0 {
+		res.Violate(key(c, "sample-count"), "1.5 s of shooting and not one sample", c)
+	}
+	ok := 0
+	for _, s := range samples {
+		if s.Proto == 200 {
+			ok++
+		}
+	}
+	res.Count("late_named_target_ok_samples", int64(ok))
+	res.Count("http_samples", int64(len(samples)))
+	res.Eval(vkit.JSON(c), true)
+}
+
 func runCase(res *vkit.Result, p *peer, c Case) {
 	defer func() {
 		if r := recover(); r != nil {
@@ -1397,6 +1461,8 @@ func runCase(res *vkit.Result, p *peer, c Case) {
 		http2Case(res, c)
 	case c.Behaviour == "closed-port":
 		closedPortCase(res, c)
+	case c.Behaviour == "named-target-comes-up-late":
+		lateNamedTargetCase(res, c)
 	case (c.Gun == "grpc" || c.Gun == "grpc/scenario") && c.Behaviour == "wkt":
 		grpcWKTCase(res, c)
 	case c.Gun == "grpc" || c.Gun == "grpc/scenario":
@@ -1469,6 +1535,8 @@ func main() {
 		cases = append(cases, Case{Gun: g, Behaviour: "closed-port", Instances: 2, Trace: true})
 		cases = append(cases, Case{Gun: g, Behaviour: "closed-port", Variant: "tls", Instances: 2})
 		cases = append(cases, Case{Gun: g, Behaviour: "closed-port", Variant: "tls", Instances: 1, Trace: true})
+		cases = append(cases, Case{Gun: g, Behaviour: "named-target-comes-up-late", Instances: 32})
+		cases = append(cases, Case{Gun: g, Behaviour: "named-target-comes-up-late", Instances: 48})
 	}
 	for _, b := range []string{"h2-statuses", "tls12-client-cert-required", "tls13-client-cert-required", "tls-getconfig-fails", "tls-no-h2"} {
 		cases = append(cases, Case{Gun: "http2", Behaviour: b, Instances: 2, Rounds: 4})
